@@ -22,7 +22,7 @@ TAGS = {"C02": "C02:", "C03": "C03:", "C04": "C04:", "C05": "C05:", "C06": "C06:
 BASE = dict(NReq=3, NOrig=1, MaxDial=2, MaxTick=0, AsBuilt="{}", Caps="{TRUE, FALSE}", MaxIdles="{1, 2}",
             IdleTimeouts="{0}", Protos="{TRUE, FALSE}", Faults="SomeFaults", Spurious="FALSE")
 INVS = "TypeOK C02state HandleUnique C15 NoOrphan PureHasOwner MarkerHasOwner"
-PROPS = "C02step C06step C05step C05pop C14a C04iv C04kept C04issue"
+PROPS = "C02step C06step C05step C05pop C14a C04iv C04kept C04issue C04dial NoSpuriousError"
 
 SLICES = {
     "quick": {
@@ -45,19 +45,26 @@ SLICES = {
     },
 }
 
+# random walks per property: a list of argument lists for `pool walk` (each is one walk campaign)
 WALKS = {
     "quick": {
-        "C02": ["--runs", 300, "--steps", 45, "--origins", 2, "--maxreq", 6],
-        "C03": ["--runs", 400, "--steps", 40, "--origins", 1, "--maxreq", 5, "--h2prob", "0.7", "--cancelw", 3],
-        "C04": ["--runs", 400, "--steps", 40, "--origins", 1, "--maxreq", 6, "--h2prob", "0.6"],
-        "C05": ["--runs", 60, "--steps", 40, "--origins", 1, "--maxreq", 6, "--h2prob", "0.2", "--tick", "--closew", 3],
-        "C06": ["--runs", 300, "--steps", 45, "--origins", 6, "--maxreq", 8, "--cancelw", 1],
-        "C14": ["--runs", 400, "--steps", 40, "--origins", 1, "--maxreq", 6, "--h2prob", "0.4"],
-        "C15": ["--runs", 300, "--steps", 50, "--origins", 2, "--maxreq", 8, "--h2prob", "0.1", "--cancelw", 1],
+        "C02": [["--runs", 300, "--steps", 45, "--origins", 2, "--maxreq", 6]],
+        "C03": [["--runs", 400, "--steps", 40, "--origins", 1, "--maxreq", 5, "--h2prob", "0.7", "--cancelw", 3]],
+        "C04": [["--runs", 350, "--steps", 40, "--origins", 1, "--maxreq", 6, "--h2prob", "0.6"],
+                ["--runs", 25, "--steps", 45, "--origins", 1, "--maxreq", 7, "--h2prob", "0.15", "--tick", "--cancelw", 1]],
+        "C05": [["--runs", 60, "--steps", 40, "--origins", 1, "--maxreq", 6, "--h2prob", "0.2", "--tick", "--closew", 3]],
+        "C06": [["--runs", 300, "--steps", 45, "--origins", 6, "--maxreq", 8, "--cancelw", 1]],
+        "C14": [["--runs", 400, "--steps", 40, "--origins", 1, "--maxreq", 6, "--h2prob", "0.4"]],
+        "C15": [["--runs", 300, "--steps", 50, "--origins", 2, "--maxreq", 8, "--h2prob", "0.1", "--cancelw", 1]],
     },
 }
-WALKS["thorough"] = {k: [x * 25 if (i > 0 and v[i - 1] == "--runs") else x for i, x in enumerate(v)] for k, v in WALKS["quick"].items()}
-WALKS["thorough"]["C05"] = ["--runs", 400, "--steps", 40, "--origins", 1, "--maxreq", 6, "--h2prob", "0.2", "--tick", "--closew", 3]
+
+
+def _scale(args, k):
+    return [x * k if (i > 0 and args[i - 1] == "--runs") else x for i, x in enumerate(args)]
+
+
+WALKS["thorough"] = {pid: [_scale(a, 6 if "--tick" in a else 25) for a in ws] for pid, ws in WALKS["quick"].items()}
 
 GEN = {"quick": dict(num=1200, depth=30), "thorough": dict(num=20000, depth=36)}
 
@@ -240,20 +247,29 @@ def run(pid, tier, seed, t0, asbuilt=None):
     rtrace = os.path.join(d, "replay-trace.ndjson")
     rep = json.loads(vlib.run_harness("pool", ["replay", "--in", sched, "--out", rtrace, "--uris", ",".join(uris)]))
     # ---- 4. random walks on the real pool
-    wtrace = os.path.join(d, "walk-trace.ndjson")
-    wk = json.loads(vlib.run_harness("pool", ["walk", "--seed", seed, "--out", wtrace] + WALKS[tier][pid]))
+    wtraces = []
+    wk = {"runs": 0, "steps": 0, "panics": 0, "actions": {}}
+    for i, wargs in enumerate(WALKS[tier][pid]):
+        wpath = os.path.join(d, f"walk-trace-{i}.ndjson")
+        one = json.loads(vlib.run_harness("pool", ["walk", "--seed", seed + 1000 * i, "--out", wpath] + wargs))
+        wtraces.append((wpath, "--origins" in wargs and int(wargs[wargs.index("--origins") + 1]) <= 2))
+        wk["runs"] += one["runs"]
+        wk["steps"] += one["steps"]
+        wk["panics"] += one["panics"]
+        for a, n in one["actions"].items():
+            wk["actions"][a] = wk["actions"].get(a, 0) + n
 
     # ---- 5. property monitor (TLC) on the real traces
     all_viol = []
     nrec = 0
     samples = []
-    for path in (rtrace, wtrace):
+    for path in [rtrace] + [w for w, _ in wtraces]:
         viol, r = monitor(pid, path)
         trace = vlib.read_ndjson(path)
         nrec += len(trace)
-        if not samples:
+        if path == rtrace:
             samples.append({"kind": "replayed model behaviour (real trace, first records)", "records": [{k: v for k, v in x.items() if k != "obs"} for x in trace[:12]]})
-        else:
+        elif len(samples) < 2:
             samples.append({"kind": "random walk (real trace, first records)", "records": [{k: v for k, v in x.items() if k != "obs"} for x in trace[:12]]})
         mine = [v for v in viol if v["tag"].startswith(prefix)]
         seen = set()
@@ -271,9 +287,15 @@ def run(pid, tier, seed, t0, asbuilt=None):
 
     # ---- trace validation of the random walks against Pool.tla itself (impl -> spec; DRIFT only)
     tv = None
-    if pid != "C06":
-        acc, rejd, rej = trace_validate(pid, wtrace)
-        tv = {"runs_accepted": acc, "runs_rejected": rejd, "first_rejections": rej[:3]}
+    for wpath, small in wtraces:
+        if not small:
+            continue       # PoolTrace.cfg has two origins; walks over six concrete origins are only monitored
+        acc, rejd, rej = trace_validate(pid, wpath)
+        if tv is None:
+            tv = {"runs_accepted": 0, "runs_rejected": 0, "first_rejections": []}
+        tv["runs_accepted"] += acc
+        tv["runs_rejected"] += rejd
+        tv["first_rejections"] = (tv["first_rejections"] + rej)[:3]
         if rejd:
             vlib.log(f"DRIFT: {rejd} random-walk runs are not behaviours of Pool.tla: {rej[:2]}")
 
